@@ -3887,7 +3887,7 @@ class FuncSub(ValueFunc):
         if a.isDate():
             if b.isDate():
                 diff = to_oa_date(a.value) - to_oa_date(b.value)
-                return ValueInt(diff)
+                return ValueInt(math.trunc(round(diff, 6)))
             return ValueDate(
                 to_date(to_oa_date(a.value) - args.getAsDecimal("b").value)
             )
